@@ -1,0 +1,9 @@
+//go:build !verif
+
+// Package verifhook provides observation points for external verification
+// harnesses. Without the "verif" build tag every point is an empty function
+// that the compiler inlines away.
+package verifhook
+
+// Point marks an observation point. It does nothing in normal builds.
+func Point(name string, args ...int64) {}
